@@ -364,6 +364,7 @@ CHECKS["C14"] = {
             {"run": "TestVfC14Faults", "quick": 320, "thorough": 12000, "shards_quick": 16, "shards_thorough": 16, "timeout_thorough": 3400},
             {"run": "TestVfC14Stale", "quick": 160, "thorough": 6000, "shards_quick": 8, "shards_thorough": 16},
             {"run": "TestVfC14MassWake", "quick": 64, "thorough": 2400, "shards_quick": 4, "shards_thorough": 8},
+            {"run": "TestVfC14Saturated", "quick": 96, "thorough": 3200, "shards_quick": 8, "shards_thorough": 16},
         ]},
     ],
     "assumptions": ["fake servers listen on 127.0.0.1 with certificates from the harness CA"],
